@@ -150,6 +150,7 @@ type tobj struct {
 	payload []byte
 	pfx     uint64 // payload bytes that fit the first buffered read of a plain file
 	stored  int    // stored (possibly compressed) size
+	sweep   *sweepCase // set for members of boundary-sweep files
 }
 
 // shape is the storage shape class used in fingerprints: raw/zstd and how the stored and decoded sizes
@@ -169,6 +170,8 @@ func (t *tobj) shape() string {
 	if t.stored == len(t.enc) {
 		lay := "plain-file"
 		switch {
+		case t.sweep != nil:
+			lay = "boundary-sweep:" + t.sweep.Kind + ":" + t.sweep.class()
 		case strings.Contains(t.Format, "combined-single"):
 			lay = "sole-member"
 		case strings.Contains(t.Format, "combined-3"):
@@ -291,6 +294,7 @@ type tcase struct {
 	Mode    uint8  `json:"mode"`
 	First   uint64 `json:"first"`
 	Second  uint64 `json:"second"`
+	Sweep   *sweepCase `json:"sweep,omitempty"`
 }
 
 var (
@@ -397,7 +401,7 @@ func (c *checker) viol(api, rule string, r common.PayloadRange, e expect, detail
 	fpSet[fp]++
 	fpMu.Unlock()
 	run.Violation(fp, fmt.Sprintf("%s.%s on %s object, payload %d bytes (%s), range %s(%d,%d): %s", c.l.Name(), api, c.t.Format, c.t.L, c.t.Pattern, modeNames[r.Mode], r.First, r.Second, detail),
-		tcase{c.l.Name(), c.t.Format, c.t.L, c.t.Pattern, c.k, uint8(r.Mode), r.First, r.Second})
+		tcase{c.l.Name(), c.t.Format, c.t.L, c.t.Pattern, c.k, uint8(r.Mode), r.First, r.Second, c.t.sweep})
 }
 
 // judge compares one API outcome with the reference; returns the outcome kind for consistency checks.
@@ -420,6 +424,13 @@ func (c *checker) judge(api string, r common.PayloadRange, e expect, o outcome, 
 		c.viol(api, "truncated-result", r, e, fmt.Sprintf("got only the first %d bytes of the reference slice [%d,+%d)", len(o.data), e.Off, e.Ln))
 	case !bytes.Equal(o.data, want):
 		c.viol(api, "wrong-bytes", r, e, fmt.Sprintf("got %d bytes, reference slice [%d,+%d) (first difference at %d)", len(o.data), e.Off, e.Ln, firstDiff(o.data, want)))
+	}
+}
+
+// poison fills a caller-provided buffer so that stale bytes are never zero by accident.
+func poison(b []byte) {
+	for i := range b {
+		b[i] = 0xa5
 	}
 }
 
@@ -499,6 +510,9 @@ func (c *checker) one(r common.PayloadRange) {
 		if withI {
 			f = func(h []byte) error { calls++; seen = bytes.Clone(h); return nil }
 		}
+		if t.sweep != nil {
+			poison(c.buf)
+		}
 		p := guard(func() {
 			var rc io.ReadCloser
 			n, rc, err = c.l.ROP(c.buf, t.addr, r, f)
@@ -551,6 +565,9 @@ func (c *checker) one(r common.PayloadRange) {
 			var f interceptFn
 			if withI {
 				f = func(h []byte) error { calls++; seen = bytes.Clone(h); return nil }
+			}
+			if t.sweep != nil {
+				poison(c.buf)
 			}
 			p := guard(func() {
 				var rc io.ReadCloser
@@ -675,7 +692,7 @@ func resolvePart(maxL uint64) (n int) {
 			}
 			off, ln, err := r.Resolve(L)
 			oor := errors.Is(err, apistatus.ErrObjectOutOfRange)
-			tc := tcase{"resolve", "", i, "", 0, uint8(r.Mode), r.First, r.Second}
+			tc := tcase{"resolve", "", i, "", 0, uint8(r.Mode), r.First, r.Second, nil}
 			switch {
 			case err != nil && !oor:
 				run.Violation("resolve:unexpected-error:"+modeNames[r.Mode]+":"+e.Class, fmt.Sprintf("len %d %s(%d,%d): %v", L, modeNames[r.Mode], r.First, r.Second, err), tc)
@@ -943,6 +960,17 @@ func main() {
 		var c tcase
 		r.LoadReplay(&c)
 		specs = []spec{{c.L, c.Pattern, c.L > 64, true}}
+		if c.Sweep != nil {
+			buildSweep(w, []sweepCase{*c.Sweep})
+			for _, o := range w.objs["fstree/boundary-sweep"] {
+				if o.L == c.L {
+					ck := &checker{l: w.layers["fstree/boundary-sweep"], t: o, k: c.K, buf: make([]byte, 2*hbuf)}
+					ck.one(common.PayloadRange{First: c.First, Second: c.Second, Mode: common.PayloadRangeMode(c.Mode)})
+				}
+			}
+			cleanup()
+			r.Finish()
+		}
 		buildFSTree(w, specs)
 		buildUpper(w, specs)
 		for ln, os := range w.objs {
@@ -959,6 +987,9 @@ func main() {
 
 	buildFSTree(w, specs)
 	buildUpper(w, specs)
+	sweeps := sweepCases()
+	buildSweep(w, sweeps)
+	r.Set("boundary_sweep_files", len(sweeps))
 	maxResolve := uint64(64)
 	if r.Thorough() {
 		maxResolve = 160
@@ -999,6 +1030,9 @@ func main() {
 		large := j.o.L > 64
 		ck := &checker{l: w.layers[j.ln], t: j.o, k: j.k, buf: make([]byte, 2*hbuf)}
 		rs := ranges(uint64(j.o.L), large, j.o.pfx)
+		if j.o.sweep != nil {
+			rs, large = sweepRanges(uint64(j.o.L)), false
+		}
 		for _, rg := range rs {
 			ck.one(rg)
 		}
@@ -1019,7 +1053,11 @@ func main() {
 			ck.interceptorAbort(common.NewPayloadRangeSuffix(1))
 		}
 		plMu.Lock()
-		perLayer[w.layers[j.ln].Name()+"/"+j.o.Format] += n
+		pf := j.o.Format
+		if j.o.sweep != nil {
+			pf = "boundary-sweep/" + j.o.sweep.Kind
+		}
+		perLayer[w.layers[j.ln].Name()+"/"+pf] += n
 		plMu.Unlock()
 	})
 	cleanup()
@@ -1047,7 +1085,7 @@ func main() {
 	r.Sample(map[string]any{"payload_len": 10, "range": "bounds(2,20)", "reference": refRange(10, common.NewPayloadRangeBounds(2, 20))})
 	r.Sample(map[string]any{"payload_len": 10, "range": "offset-length(8,3)", "reference": refRange(10, common.NewPayloadRange(8, 3))})
 	r.Sample(map[string]any{"payload_len": 0, "range": "suffix(3)", "reference": refRange(0, common.NewPayloadRangeSuffix(3))})
-	r.Rule("payload lengths 0..64: every range mode with every (first, second) in 0..len+2 plus {2^63-1, 2^63, 2^64-len, 2^64-1}; large payloads (payload or file length within +-2 of 20480/40960, and 100000; random and compressible contents): values within +-2 of {0, buffered prefix, 20480, 40960, len}, len/2 and the huge values, read twice (ReadAll and 4099-byte reads); every object in every file format and layer listed in ranges_per_layer_format; each evaluation = one (object, range) with all APIs. Non-trivial = satisfiable range whose slice is non-empty and shorter than the payload")
+	r.Rule("payload lengths 0..64: every range mode with every (first, second) in 0..len+2 plus {2^63-1, 2^63, 2^64-len, 2^64-1}; large payloads (payload or file length within +-2 of 20480/40960, and 100000; random and compressible contents): values within +-2 of {0, buffered prefix, 20480, 40960, len}, len/2 and the huge values, read twice (ReadAll and 4099-byte reads); every object in every file format and layer listed in ranges_per_layer_format; each evaluation = one (object, range) with all APIs. Non-trivial = satisfiable range whose slice is non-empty and shorter than the payload. Boundary sweep: combined files of 2-3 members whose leading member sizes are swept so that the next member prefix starts at every file offset in [E-80, E+2] for every buffer end E of the member-prefix scan (E = B, 2B with B = NonPayloadFieldsBufferLength; after a straddling prefix; after a seek), member lengths with non-zero low bytes, poisoned caller buffers; every member read with 15 boundary-directed ranges (whole object, full, first/last byte, halves, clamped, unsatisfiable) through all FSTree range APIs")
 	r.Assume("offset-length ranges with zero length at a non-zero offset are not specified by the doc comments (the engine's GetRange comment and PayloadRange.Resolve contradict each other): only agreement between all APIs, layers and formats is demanded for them",
 		"objects are valid (header payload length = actual payload length); stored compressed data is a single zstd frame as written by older node versions")
 	r.Exhaustive(!incomplete)
